@@ -28,6 +28,23 @@
 (* kind  history -> input from/to an address with that history  are part   *)
 (* of the state space and of the recorded traces, and so that the          *)
 (* deviation FlowCache can be expressed (negative controls).               *)
+(*                                                                         *)
+(* Part 4 (reconfiguration): `flags` is what the node is configured with   *)
+(* NOW (TunnelSettings.peer_flags has a setter meant for run-time changes):*)
+(* SetFlags may happen between any two steps.  The property speaks of the  *)
+(* moment a packet reaches the outside / re-enters the tunnel: a packet    *)
+(* that was accepted earlier and has been waiting since (for a DNS answer, *)
+(* for the transports) is judged again, by the flags configured when it    *)
+(* leaves.  Deviation StaleVerdict = a verdict taken at arrival is kept.   *)
+(*                                                                         *)
+(* Part 5 (who is the previous hop): "the circuit's own previous hop" is   *)
+(* the address the circuit was created from, fixed for the life of the     *)
+(* socket.  The node also keeps a network-wide belief about where the      *)
+(* previous hop's KEY lives, which every validly signed overlay message    *)
+(* updates - messages do not bind their sender address, so anybody can     *)
+(* replay one from anywhere (SignedMessage, variable `seen`).  No step     *)
+(* reads `seen`; deviation HopFollowsPeer = the opener check compares with *)
+(* that belief instead.                                                    *)
 (***************************************************************************)
 EXTENDS ExitClassifier, FiniteSets
 
@@ -39,6 +56,12 @@ CONSTANTS QCap,            \* capacity of the waiting queue (deque(maxlen=10) in
           AnyoneOpens,     \* deviation (negative control): any source address may open the socket
           FlowCache,       \* deviation (negative control): "none" | "in_after_out" | "in_after_ask" | "in_after_in" |
                            \*   "out_after_out" | "out_after_in": an address the socket dealt with skips the filter
+          StaleVerdict,    \* deviation (negative control): "none" | "dns" | "queue": a packet that waited for its name
+                           \*   to be resolved / for the transports is not put through the filter again when it leaves
+          HopFollowsPeer,  \* deviation (negative control): the source of the first data is compared with the address the
+                           \*   previous hop's key was last seen at (`seen`) instead of the circuit's previous hop
+          FlagChoices,     \* model bound: the flag sets SetFlags may configure ({} = static configuration)
+          SignedSrcs,      \* model bound: where signed messages of the previous hop's key may come from ({} = none)
           TrackHistory,    \* model bound: FALSE = the history variables stay empty (they are read by nothing but the
                            \*   deviation FlowCache and TypeOK; the history-free model covers more packets / sources)
           HostIps,         \* model bound: IP addresses / host names of the outside world
@@ -49,7 +72,9 @@ CONSTANTS QCap,            \* capacity of the waiting queue (deque(maxlen=10) in
 -----------------------------------------------------------------------------
 (* Part 2: one exit socket. *)
 
-VARIABLES flags,   \* configured peer flags (constant during a behaviour)
+VARIABLES flags,   \* configured peer flags (changed by SetFlags only)
+          cfgs,    \* every flag set that was configured during the behaviour so far
+          seen,    \* source the latest validly signed overlay message of the previous hop's key came from
           prefix,  \* prefix of the tunnel overlay (constant during a behaviour)
           st,      \* "disabled" | "enabling0" | "enabling4" | "ready" | "closed"
           queue,   \* packets waiting for a transport: Seq([p, dk])
@@ -62,7 +87,8 @@ VARIABLES flags,   \* configured peer flags (constant during a behaviour)
           sentTo,  \* outside addresses a packet was handed to an outside transport for
           heard    \* outside addresses a datagram of which was sent back into the tunnel
 hist == <<asked, sentTo, heard>>
-vars == <<flags, prefix, st, queue, pend, emit, tun, opener, ops, asked, sentTo, heard>>
+conf == <<flags, prefix, cfgs, seen>>
+vars == <<flags, prefix, st, queue, pend, emit, tun, opener, ops, asked, sentTo, heard, cfgs, seen>>
 
 (* an outside address; for a domain destination `ip` is the host name *)
 Addr(ip, port) == [ip |-> ip, port |-> port]
@@ -71,6 +97,9 @@ AddrsOf(s) == {s[i].a : i \in 1..Len(s)}
 Remember(known, new) == IF TrackHistory THEN known \cup new ELSE known
 
 Sources == {"prev", "port", "other"}   \* previous hop; previous hop's IP, other port; other IP
+IpOf(src) == IF src = "other" THEN "foreign" ELSE "prevhop"
+(* exit_data: is the source of the data that would open the socket somebody else than the previous hop? *)
+Foreign(src) == IF HopFollowsPeer THEN IpOf(src) # IpOf(seen) ELSE src = "other"
 DestKinds == {"v4", "v6", "dom4", "dom6", "domfail", "null"}
 IsDom(dk) == dk \in {"dom4", "dom6", "domfail"}
 Resolved(dk) == IF dk = "dom6" THEN "v6" ELSE "v4"
@@ -81,6 +110,7 @@ HasTransport(s, dk) == IF dk = "v6" THEN s = "ready" ELSE s \in {"enabling4", "r
 Push(q, x) == IF Len(q) < QCap THEN Append(q, x) ELSE Append(Tail(q), x)
 
 Ok(p) == Allowed(flags, p, prefix)
+OkEver(p) == \E f \in cfgs : Allowed(f, p, prefix)
 
 (* the deviations: an address with a history is exempt from the filter (FALSE in the specification proper) *)
 TrustedOut(a) == \/ FlowCache = "out_after_out" /\ a \in sentTo
@@ -90,8 +120,9 @@ TrustedIn(a) == \/ FlowCache = "in_after_out" /\ a \in sentTo
                 \/ FlowCache = "in_after_in" /\ a \in heard
 
 (* TunnelExitSocket.sendto in socket state s *)
-SendTo(s, q, pe, p, dk, a) ==
-    IF ~(Ok(p) \/ TrustedOut(a)) THEN [q |-> q, pe |-> pe, em |-> <<>>]
+(* skip: deviation StaleVerdict only (FALSE in the specification proper) *)
+SendTo(s, q, pe, p, dk, a, skip) ==
+    IF ~(Ok(p) \/ TrustedOut(a) \/ skip) THEN [q |-> q, pe |-> pe, em |-> <<>>]
     ELSE IF IsDom(dk) THEN [q |-> q, pe |-> Append(pe, [p |-> p, dk |-> dk, a |-> a]), em |-> <<>>]
     ELSE IF ~HasTransport(s, dk) THEN [q |-> Push(q, [p |-> p, dk |-> dk, a |-> a]), pe |-> pe, em |-> <<>>]
     ELSE [q |-> q, pe |-> pe, em |-> <<[p |-> p, dk |-> dk, a |-> a]>>]
@@ -103,33 +134,33 @@ Quiet == /\ emit' = <<>> /\ tun' = <<>>
 DataFromTunnel(src, dk, a, p) ==
     /\ ops < MaxOps
     /\ IsDom(dk) => Len(pend) < MaxPend
-    /\ ops' = ops + 1 /\ UNCHANGED <<flags, prefix>>
+    /\ ops' = ops + 1 /\ UNCHANGED conf
     /\ IF st = "closed" THEN Quiet                                       \* unknown circuit
        ELSE IF dk = "null" /\ ~NoNullCheck THEN Quiet                    \* on_data: destination 0.0.0.0:0
-       ELSE IF st = "disabled" /\ src = "other" /\ ~AnyoneOpens THEN Quiet   \* exit_data: wrong IP
+       ELSE IF st = "disabled" /\ Foreign(src) /\ ~AnyoneOpens THEN Quiet   \* exit_data: wrong IP
        ELSE LET s1 == IF st = "disabled" THEN "enabling0" ELSE st
-                r == SendTo(s1, queue, pend, p, dk, a)
+                r == SendTo(s1, queue, pend, p, dk, a, FALSE)
             IN /\ st' = s1
                /\ opener' = IF st = "disabled" THEN src ELSE opener
                /\ queue' = r.q /\ pend' = r.pe /\ emit' = r.em /\ tun' = <<>>
                /\ asked' = Remember(asked, {a}) /\ sentTo' = Remember(sentTo, AddrsOf(r.em)) /\ UNCHANGED heard
 
 TransportReady ==
-    /\ ops < MaxOps /\ ops' = ops + 1 /\ UNCHANGED <<flags, prefix, pend, opener, asked, heard>>
+    /\ ops < MaxOps /\ ops' = ops + 1 /\ UNCHANGED <<conf, pend, opener, asked, heard>>
     /\ st \in {"enabling0", "enabling4"}
     /\ tun' = <<>>
     /\ IF st = "enabling0"
        THEN st' = "enabling4" /\ emit' = <<>> /\ UNCHANGED queue
        ELSE /\ st' = "ready"
-            \* the queue is flushed through sendto again
-            /\ emit' = SelectSeq(queue, LAMBDA x : Ok(x.p) \/ TrustedOut(x.a))
+            \* the queue is flushed through sendto again: judged by the flags configured NOW
+            /\ emit' = SelectSeq(queue, LAMBDA x : Ok(x.p) \/ TrustedOut(x.a) \/ StaleVerdict = "queue")
             /\ queue' = <<>>
     /\ sentTo' = Remember(sentTo, AddrsOf(emit'))
 
 (* ip: the address the name resolved to (what the resolver answers is not under the exit node's control: any    *)
 (* address, also one the socket already dealt with); the port of the domain destination is kept                 *)
 ResolveDone(i, ip) ==
-    /\ ops < MaxOps /\ ops' = ops + 1 /\ UNCHANGED <<flags, prefix, st, opener, heard>>
+    /\ ops < MaxOps /\ ops' = ops + 1 /\ UNCHANGED <<conf, st, opener, heard>>
     /\ st # "closed"
     /\ i \in 1..Len(pend)
     /\ tun' = <<>>
@@ -138,7 +169,8 @@ ResolveDone(i, ip) ==
            ra == Addr(ip, x.a.port)
        IN IF x.dk = "domfail"
           THEN pend' = rest /\ emit' = <<>> /\ UNCHANGED <<queue, asked, sentTo>>
-          ELSE LET r == SendTo(st, queue, rest, x.p, Resolved(x.dk), ra)
+          ELSE \* on_address -> sendto: the policy configured NOW decides, not the one the lookup started under
+               LET r == SendTo(st, queue, rest, x.p, Resolved(x.dk), ra, StaleVerdict = "dns")
                IN /\ queue' = r.q /\ pend' = r.pe /\ emit' = r.em
                   /\ asked' = Remember(asked, {ra}) /\ sentTo' = Remember(sentTo, AddrsOf(r.em))
 
@@ -146,7 +178,7 @@ ResolveDone(i, ip) ==
 (* a: the source address of the datagram - whoever it is and whatever the socket did with that address before,  *)
 (* the datagram goes through the same filter as outbound data                                                   *)
 OutsideDatagram(fam, a, p) ==
-    /\ ops < MaxOps /\ ops' = ops + 1 /\ UNCHANGED <<flags, prefix, st, queue, pend, opener, asked, sentTo>>
+    /\ ops < MaxOps /\ ops' = ops + 1 /\ UNCHANGED <<conf, st, queue, pend, opener, asked, sentTo>>
     /\ HasTransport(st, IF fam = "v4" THEN "v4" ELSE "v6")
     /\ emit' = <<>>
     /\ IF Ok(p) \/ NoInboundFilter \/ TrustedIn(a)
@@ -156,9 +188,24 @@ OutsideDatagram(fam, a, p) ==
     /\ heard' = Remember(heard, AddrsOf(tun'))
 
 Close ==
-    /\ ops < MaxOps /\ ops' = ops + 1 /\ UNCHANGED <<flags, prefix, opener, hist>>
+    /\ ops < MaxOps /\ ops' = ops + 1 /\ UNCHANGED <<conf, opener, hist>>
     /\ st # "closed"
     /\ st' = "closed" /\ queue' = <<>> /\ pend' = <<>> /\ emit' = <<>> /\ tun' = <<>>
+
+(* settings.peer_flags = f at run time, in any state of the socket: nothing leaves, nothing is forgotten; what    *)
+(* waits in `queue` / `pend` was accepted under an earlier configuration and meets the new one when it leaves      *)
+SetFlags(f) ==
+    /\ ops < MaxOps /\ ops' = ops + 1
+    /\ flags' = f /\ cfgs' = cfgs \cup {f}
+    /\ Quiet /\ UNCHANGED <<prefix, seen>>
+
+(* a validly signed overlay message of the previous hop's key (introduction request, puncture, destroy for some   *)
+(* other circuit, ...) arrives from source src - from the peer itself, or replayed by anybody from anywhere.       *)
+(* It is not tunnel data: it moves the node's belief about the peer, never the socket                              *)
+SignedMessage(src) ==
+    /\ ops < MaxOps /\ ops' = ops + 1
+    /\ seen' = src
+    /\ Quiet /\ UNCHANGED <<flags, prefix, cfgs>>
 
 -----------------------------------------------------------------------------
 (* Model-checking instance: representative packets of every class, real TunnelCommunity prefix. *)
@@ -181,6 +228,7 @@ Init == /\ flags \in SUBSET {"BT", "IPV8", "RELAY"}
         /\ st = "disabled" /\ queue = <<>> /\ pend = <<>> /\ emit = <<>> /\ tun = <<>>
         /\ opener = "none" /\ ops = 0
         /\ asked = {} /\ sentTo = {} /\ heard = {}
+        /\ cfgs = {flags} /\ seen = "prev"
 
 AddrSet == {Addr(ip, port) : ip \in HostIps, port \in HostPorts}
 
@@ -190,6 +238,8 @@ Next == \/ \E src \in SrcSet, dk \in DkSet, r \in RepIds :
         \/ \E i \in 1..MaxPend, ip \in HostIps : ResolveDone(i, ip)
         \/ \E fam \in {"v4", "v6", "v6mapped"}, a \in AddrSet, r \in RepIds : OutsideDatagram(fam, a, Reps[r])
         \/ Close
+        \/ \E f \in FlagChoices : SetFlags(f)
+        \/ \E src \in SignedSrcs : SignedMessage(src)
 
 Spec == Init /\ [][Next]_vars
 
@@ -198,23 +248,28 @@ Spec == Init /\ [][Next]_vars
 
 TypeOK == /\ st \in {"disabled", "enabling0", "enabling4", "ready", "closed"}
           /\ Len(queue) <= QCap
-          /\ opener \in Sources \cup {"none"}
+          /\ opener \in Sources \cup {"none"} /\ seen \in Sources
+          /\ flags \in cfgs /\ cfgs \subseteq SUBSET {"BT", "IPV8", "RELAY"}
           /\ TrackHistory => /\ AddrsOf(emit) \subseteq sentTo /\ sentTo \subseteq asked
                               /\ AddrsOf(tun) \subseteq heard /\ AddrsOf(queue) \subseteq asked
 
 (* both directions: whatever reaches the outside or re-enters the tunnel passes the policy - in every reachable   *)
-(* state, i.e. after every history of the socket with the address concerned                                        *)
+(* state, i.e. after every history of the socket with the address concerned - and the policy is the one configured *)
+(* at the step that lets it pass (SetFlags empties emit / tun, so `flags` here are the flags of that step)         *)
 EmitOnlyAllowed == /\ \A i \in 1..Len(emit) : Ok(emit[i].p)
                    /\ \A i \in 1..Len(tun) : Ok(tun[i].p)
 
 NeverToNull == \A i \in 1..Len(emit) : emit[i].dk # "null"
 
-(* the socket leaves "disabled" (towards an open outside socket) only through data from the previous hop's IP *)
+(* the socket leaves "disabled" (towards an open outside socket) only through data from the previous hop's IP -   *)
+(* wherever signed messages of the previous hop's key were seen coming from in the meantime                        *)
 OpenedOnlyByPrevHop == /\ st \in {"enabling0", "enabling4", "ready"} => opener \in {"prev", "port"}
                        /\ opener # "other"
 
-(* nothing leaves before the socket was opened, nothing waits that would not be allowed to leave *)
+(* nothing leaves before the socket was opened, nothing waits that no configuration so far allowed to leave *)
 EmitOnlyWhenOpen == emit # <<>> => st \in {"enabling4", "ready"}
-QueueClean == /\ \A i \in 1..Len(queue) : Ok(queue[i].p) /\ queue[i].dk # "null" /\ ~IsDom(queue[i].dk)
-              /\ \A i \in 1..Len(pend) : Ok(pend[i].p)
+QueueClean == /\ \A i \in 1..Len(queue) : OkEver(queue[i].p) /\ queue[i].dk # "null" /\ ~IsDom(queue[i].dk)
+              /\ \A i \in 1..Len(pend) : OkEver(pend[i].p)
+              /\ Cardinality(cfgs) = 1 => /\ \A j \in 1..Len(queue) : Ok(queue[j].p)
+                                          /\ \A k \in 1..Len(pend) : Ok(pend[k].p)
 =============================================================================
